@@ -43,6 +43,8 @@ use verif_harness::*;
 
 const EPS: [&str; 3] = ["https", "http", "tcp"];
 const SHORT_TTL_MS: u64 = 150;
+const CLS_CDN_TTL_MS: u64 = 1800; // ttl "cls": ribbit_ttl 600 ms, cdn_ttl 1800 ms, config_ttl 3000 ms
+const CLS_CONFIG_TTL_MS: u64 = 3000;
 const MID_TTL_MS: u64 = 600; // with `wait` operations of 400 ms: a hit at 0.67 x TTL, a query at 1.33 x TTL
 const TICK_MS: u64 = 650; // > 4 x TTL
 const LONG_TTL_S: u64 = 3600;
@@ -545,9 +547,23 @@ fn malformed_body(beh: &str) -> Vec<u8> {
     }
 }
 
-fn status_of(beh: &str) -> Option<(u16, Option<&'static str>)> {
-    if beh == "H429RA" {
-        return Some((429, Some("1")));
+/// status code and, for the 429 family, the bytes of the `Retry-After` value: a class alphabet of what servers and
+/// gateways put there (seconds, zero, HTTP-date, fractional, with a unit, negative, empty, non-ASCII)
+fn status_of(beh: &str) -> Option<(u16, Option<&'static [u8]>)> {
+    let ra: Option<&'static [u8]> = match beh {
+        "H429RA" => Some(b"1"),
+        "H429RA0" => Some(b"0"),
+        "H429RA120" => Some(b"120"),
+        "H429RADate" => Some(b"Wed, 21 Oct 2026 07:28:00 GMT"),
+        "H429RAFrac" => Some(b"1.5"),
+        "H429RAUnit" => Some(b"30s"),
+        "H429RANeg" => Some(b"-1"),
+        "H429RAEmpty" => Some(b""),
+        "H429RABin" => Some(b"\xe9\xff soon"),
+        _ => None,
+    };
+    if ra.is_some() {
+        return Some((429, ra));
     }
     beh.strip_prefix('H').and_then(|c| c.parse::<u16>().ok()).map(|c| (c, None))
 }
@@ -611,12 +627,15 @@ async fn http_conn(mut s: TcpStream, ep: &'static str, row: Arc<RowCtx>) {
     };
     if let Some((code, ra)) = status_of(&beh) {
         let body = format!("status {code}\n");
-        let mut h = format!("HTTP/1.1 {code} {}\r\nContent-Type: text/plain\r\nContent-Length: {}\r\nConnection: close\r\n", reason(code), body.len());
+        let mut h = format!("HTTP/1.1 {code} {}\r\nContent-Type: text/plain\r\nContent-Length: {}\r\nConnection: close\r\n", reason(code), body.len())
+            .into_bytes();
         if let Some(ra) = ra {
-            h.push_str(&format!("Retry-After: {ra}\r\n"));
+            h.extend_from_slice(b"Retry-After: ");
+            h.extend_from_slice(ra);
+            h.extend_from_slice(b"\r\n");
         }
-        h.push_str("\r\n");
-        let _ = s.write_all(h.as_bytes()).await;
+        h.extend_from_slice(b"\r\n");
+        let _ = s.write_all(&h).await;
         let _ = s.write_all(body.as_bytes()).await;
         let _ = s.shutdown().await;
         return;
@@ -810,9 +829,11 @@ async fn run_query_row(prog: &Value, idx: usize) -> Vec<Value> {
     let dir = tempfile::Builder::new().prefix("c13-").tempdir_in(scratch()).expect("tempdir");
     let ttl = match ttl_kind.as_str() {
         "short" => Duration::from_millis(SHORT_TTL_MS),
-        "mid" => Duration::from_millis(MID_TTL_MS),
+        "mid" | "cls" => Duration::from_millis(MID_TTL_MS),
         _ => Duration::from_secs(LONG_TTL_S),
     };
+    // "cls": the three time-to-live fields differ, so which of them an endpoint class gets is visible
+    let (cdn_ttl, config_ttl) = if ttl_kind == "cls" { (Duration::from_millis(CLS_CDN_TTL_MS), Duration::from_millis(CLS_CONFIG_TTL_MS)) } else { (ttl, ttl) };
     let row_start = std::time::Instant::now();
     let cfg = ClientConfig {
         tact_https_url: format!("http://{}:{}", row.ip, ports[0]),
@@ -821,8 +842,8 @@ async fn run_query_row(prog: &Value, idx: usize) -> Vec<Value> {
         cache_config: CacheConfig {
             cache_dir: if cache_kind == "disk" { Some(dir.path().join("cache")) } else { None },
             ribbit_ttl: ttl,
-            cdn_ttl: ttl,
-            config_ttl: ttl,
+            cdn_ttl,
+            config_ttl,
             ..CacheConfig::default()
         },
         ..ClientConfig::default()
@@ -1063,7 +1084,7 @@ fn random_row(rng: &mut Rng) -> Value {
         return json!({"fam": "cdn", "cache": cache, "script": script, "ra": "0", "ops": ops});
     }
     let http = [
-        "OkBpsv", "OkBpsv", "H500", "H502", "H503", "H504", "H429", "H429RA", "H400", "H401", "H403", "H404", "H410", "Malformed", "MalformedEmpty",
+        "OkBpsv", "OkBpsv", "H500", "H502", "H503", "H504", "H429", "H429RA", "H429RA0", "H429RA120", "H429RADate", "H429RAFrac", "H429RAUnit", "H429RANeg", "H429RAEmpty", "H429RABin", "H400", "H401", "H403", "H404", "H410", "Malformed", "MalformedEmpty",
         "MalformedRow", "MalformedBin", "MalformedHtml", "MalformedDec", "Refused", "ClosedMid", "ClosedHead", "ClosedEmpty",
     ];
     let tcp = ["OkBpsv", "OkBpsvEof", "OkMime", "OkMimeLf", "OkMimeSrv", "Malformed", "MalformedSum", "MalformedRow", "MalformedBin", "Refused", "ClosedMid", "ClosedMidBpsv", "ClosedEmpty"];
@@ -1089,9 +1110,9 @@ fn random_row(rng: &mut Rng) -> Value {
         beh2.insert(ep.into(), json!(nb));
     }
     let disk = rng.chance(1, 2);
-    let ttl_kind = *rng.pick(&["long", "long", "short", "short", "mid"]);
+    let ttl_kind = *rng.pick(&["long", "long", "short", "short", "mid", "cls"]);
     let short = ttl_kind == "short";
-    let mid = ttl_kind == "mid";
+    let mid = ttl_kind == "mid" || ttl_kind == "cls";
     let mut ops = vec![json!({"op": "query", "p": 1})];
     let n = 2 + rng.below(5);
     let mut last = "query";
@@ -1102,7 +1123,7 @@ fn random_row(rng: &mut Rng) -> Value {
         } else if c < 7 && short && last != "tick" {
             json!({"op": "tick"})
         } else if c < 8 && mid {
-            json!({"op": "wait", "ms": 400})
+            json!({"op": "wait", "ms": if ttl_kind == "cls" && rng.chance(1, 2) { 1000 } else { 400 }})
         } else if c < 8 && disk && last != "reopen" {
             json!({"op": "reopen"})
         } else if c < 9 && last != "flip" {
